@@ -34,7 +34,7 @@ def del (d : Dir) (n : Bytes) : Dir := d.filter (·.1 ≠ n)
 def put (d : Dir) (n : Bytes) (x : Node) : Dir := del d n ++ [(n, x)]
 
 /-- `checkListedFilename`: a plain file name -/
-def plain (n : Bytes) : Bool := !n.isEmpty && n ≠ [46] && n ≠ [46, 46] && Path.base n = n
+def plain (n : Bytes) : Bool := !n.isEmpty && n ≠ [46] && n ≠ [46, 46] && !n.contains 47 && Path.base n = n
 
 /-- `internal.Copy(src/name, dest/name)` -/
 def copyFile (s : State) (n : Bytes) : State × Bool :=
